@@ -4,6 +4,11 @@ import json, os
 HERE = os.path.dirname(os.path.dirname(os.path.abspath(__file__)))
 
 CLAIMED = {
+ 'C17': dict(
+   text='Machine-checked proof (Coq 8.16): for every history of set / set_from_enum / add_attribute / remove / merge_upsert / remove_non_transitives the map has strictly ascending keys (at most one attribute per type code) and every attribute is filed under its own code; get after set returns the value, set reports what get returned before, remove returns it and leaves the type absent (others untouched), merge lets the other map win, the byte length is the sum of the encoded lengths, stripping non-transitives keeps exactly the entries whose type - for unrecognised / malformed ones whose received flags - is transitive; a map built from an accepted UPDATE holds every attribute except MP_REACH/MP_UNREACH and OwnedPathAttributes::get returns the same typed value for every type; the workshop returns what the preceding set stored, community lists included (flavour by flavour, in stored order), and one built from an UPDATE carries that NLRI next hop and no NEXT_HOP attribute.',
+   note='Trusted: Coq kernel; hand-written Model/PaMap.v over the attribute / decoder models; tied by a differential run on operation histories over all 20 attribute kinds (values from small pools, unrecognised and malformed attributes, merges, workshop set/get, community lists mixing the four flavours) against a Python reference map, and on UPDATEs with repeated types as sources. Two defects found and fixed in /repo (first-vs-last of a repeated type; Vec<Community> store lost everything).',
+   technique='Coq proof: map invariant by induction over operation histories, lookup algebra, first-occurrence lemma for from_update_pdu; differential correspondence on operation histories',
+   design='5/C17'),
  'C18': dict(
    text='Machine-checked proof (Coq 8.16) over tables regenerated from the source on every run: number->enum->number is the identity for every natural number and every enumeration, named variants are injective, unknown numbers land in the catch-all, AFI/SAFI as_bytes = be16 AFI ++ SAFI for all pairs, NLRI types <-> (AFI/SAFI, ADD-PATH), NOTIFICATION details re-encode (all 65536 pairs, K2 excluded with witness). The table interpreter is tied to the crate by an exhaustive differential run (every code point, all 2^24 AFI/SAFI pairs on the implementation).',
    note='Trusted: Coq kernel + vm_compute; translator tools/gen_enums.py with macro definitions pinned by hash; Model/Enums.v interpreter (hand-written, tied by exhaustive correspondence); ExtrOcamlBasic extraction and OCaml/Rust printers. No axioms.',
